@@ -346,20 +346,34 @@ func knownFile() string {
 	return filepath.Join(Root(), "known_findings.json")
 }
 
+var (
+	knownOnce sync.Once
+	knownAll  []Finding
+)
+
+// allFindings reads known_findings.json once per process (a check's verdict
+// must not depend on the file changing while it runs).
+func allFindings() []Finding {
+	knownOnce.Do(func() {
+		b, err := os.ReadFile(knownFile())
+		if err != nil {
+			return
+		}
+		var all struct {
+			Findings []Finding `json:"findings"`
+		}
+		if err := json.Unmarshal(b, &all); err != nil {
+			panic("known_findings.json: " + err.Error())
+		}
+		knownAll = all.Findings
+	})
+	return knownAll
+}
+
 // Findings returns the entries of known_findings.json for one property.
 func Findings(property string) []Finding {
-	b, err := os.ReadFile(knownFile())
-	if err != nil {
-		return nil
-	}
-	var all struct {
-		Findings []Finding `json:"findings"`
-	}
-	if err := json.Unmarshal(b, &all); err != nil {
-		panic("known_findings.json: " + err.Error())
-	}
 	var out []Finding
-	for _, f := range all.Findings {
+	for _, f := range allFindings() {
 		if f.Property == property {
 			out = append(out, f)
 		}
@@ -371,17 +385,7 @@ func Findings(property string) []Finding {
 // fixed) finding is on, i.e. whether known_findings.json lists a finding
 // with status "known" and this switch name.
 func SwitchOn(name string) bool {
-	b, err := os.ReadFile(knownFile())
-	if err != nil {
-		return false
-	}
-	var all struct {
-		Findings []Finding `json:"findings"`
-	}
-	if json.Unmarshal(b, &all) != nil {
-		return false
-	}
-	for _, f := range all.Findings {
+	for _, f := range allFindings() {
 		if f.Status == "known" && f.Switch == name {
 			return true
 		}
